@@ -22,7 +22,10 @@ import (
 )
 
 // harnessDir / repoDir can be redirected to scratch copies (seed testing without touching /repo).
-var harnessDir = envOr("SYMGO_HARNESS_DIR", "/verif/harness")
+// verifRoot is the directory holding engine/, harness/, evidence/ ... (set by the check script to its own
+// directory, so that a copy of /verif elsewhere is self-contained).
+var verifRoot = envOr("SYMGO_ROOT", "/verif")
+var harnessDir = envOr("SYMGO_HARNESS_DIR", verifRoot+"/harness")
 var repoDir = envOr("SYMGO_REPO_DIR", "/repo")
 
 func envOr(k, d string) string {
